@@ -480,15 +480,23 @@ def run_program(prog, mode):
     per statement the kinds of object handed to `.shaped`)."""
     kw = {} if mode == 'plain' else {'new_style': mode == 'new'}
     trace, dump, findings, shaped_ops = [], None, [], []
+    flips = mixed_flips(prog) if mode == 'mixed' else None
     with config(**kw), warnings.catch_warnings():
         warnings.simplefilter('ignore')
         it = Interp(mode, prog['grids'])
         ok = True
-        for s in prog['stmts']:
+        for i, s in enumerate(prog['stmts']):
             nsh = len(it.shaped_ops)
             try:
-                x = it.st(s)
-                trace.append((x, it.observe(x)))
+                if flips is None:
+                    x = it.st(s)
+                    trace.append((x, it.observe(x)))
+                else:
+                    # the Field style is switched between statements: objects made under one style are operands,
+                    # in-place targets and aliases under the other
+                    with config(new_style=flips[i]):
+                        x = it.st(s)
+                        trace.append((x, it.observe(x)))
                 shaped_ops.append(it.shaped_ops[nsh:])
             except MachineryError:
                 raise
@@ -506,6 +514,17 @@ def run_program(prog, mode):
                     dump[x] = {'err': err_class(e)}
         findings = it.findings
     return trace, dump, findings, shaped_ops
+
+
+def mixed_flips(prog):
+    """the Field style configured while each statement runs in the 'mixed' run (a function of the program only, so that
+    replays see the same): alternating per statement, or one switch in the middle; either style first"""
+    n = len(prog['stmts'])
+    h = sum(len(str(s)) for s in prog['stmts'])
+    first = bool(h % 2)
+    if (h // 2) % 2:
+        return [first ^ bool(i % 2) for i in range(n)]
+    return [first ^ (i >= (n + 1) // 2) for i in range(n)]
 
 
 def shaped_divergence(old, new):
@@ -2422,12 +2441,15 @@ def stmt_sig(s):
     return t
 
 
-def oracle(prog, plain, old, new):
+def oracle(prog, plain, old, new, mixed=None):
     """list of (key, what)"""
     bad = []
-    for mode, run in (('old', old), ('new', new)):
+    if mixed is None:
+        mixed = run_program(prog, 'mixed')
+    for mode, run in (('old', old), ('new', new), ('mixed', mixed)):
         for key, what in run[2]:
             bad.append((key, what))
+    bad += mixed_oracle(prog, plain, mixed)
     ptrace, otrace, ntrace = plain[0], old[0], new[0]
     tainted = set()        # a style whose values already went wrong: later differences are consequences
     div = shaped_divergence(old, new)
@@ -2494,6 +2516,44 @@ def oracle(prog, plain, old, new):
                     bad.append(('final-read %s %s' % (mode, last[-1] if last else '-'),
                                 'variable %d read at the end holds %s with %s-style fields, the plain-array reference holds %s (stale alias or lost write)' % (x, short(a), mode, short(b))))
                     break
+    return bad
+
+
+def mixed_oracle(prog, plain, mixed):
+    """the run in which the configured Field style is switched between statements, against the plain-array reference:
+    same values, shapes, dtype classes and exception classes at every statement and in the final read-out"""
+    bad = []
+    flips = mixed_flips(prog)
+    for i, s in enumerate(prog['stmts']):
+        if i >= len(plain[0]) or i >= len(mixed[0]):
+            break
+        sig = stmt_sig(s)
+        p, r = plain[0][i], mixed[0][i]
+        if any(k[0] != 'f' for k in mixed[3][i]):
+            return bad          # `.shaped` of something that is no Field in this mixture of styles (accepted divergence, see `oracle`)
+        if s[0] == 'assign' and s[2][0] == 'ext' and EXT[s[2][1]].get('fieldonly'):
+            if r[0] == 'E' and p[0] != 'E' or p[0] is None:
+                return bad      # field-only library functions have no plain reference
+            continue
+        cfg = 'configured style %s, previous statement %s' % ('new' if flips[i] else 'old', ('new' if flips[i - 1] else 'old') if i else '-')
+        if p[0] == 'E':
+            if r[0] != 'E':
+                bad.append(('no-error mixed %s' % sig, '%s raises %s on plain arrays but not when the Field style is switched between statements (%s)' % (sig, p[1], cfg)))
+            elif r[1] != p[1]:
+                bad.append(('error-class mixed %s' % sig, '%s raises %s on plain arrays but %s when the Field style is switched between statements (%s)' % (sig, p[2], r[2], cfg)))
+            return bad
+        if r[0] == 'E':
+            bad.append(('raises mixed %s %s' % (sig, r[1]), '%s works on plain arrays and with either Field style alone, but raises %s when the Field style is switched between statements (%s)' % (sig, r[2], cfg)))
+            return bad
+        if not same_obs_values(r[1], p[1]):
+            bad.append(('values mixed %s' % sig, '%s gives %s when the Field style is switched between statements (%s), the plain-array reference gives %s' % (sig, short(r[1]), cfg, short(p[1]))))
+            return bad
+    if plain[1] is not None and mixed[1] is not None:
+        for x in prog['final'] + prog.get('final_views', []):
+            a, b = mixed[1].get(x), plain[1].get(x)
+            if a is not None and b is not None and not same_obs_values(a, b):
+                bad.append(('final-read mixed', 'variable %d read at the end holds %s when the Field style is switched between statements, the plain-array reference holds %s' % (x, short(a), short(b))))
+                break
     return bad
 
 
@@ -3058,7 +3118,9 @@ def check_program(ctx, prog, label):
     plain = run_program(prog, 'plain')
     old = run_program(prog, 'old')
     new = run_program(prog, 'new')
-    fails = oracle(prog, plain, old, new)
+    mixed = run_program(prog, 'mixed')
+    ctx.count('mixed-style-runs')
+    fails = oracle(prog, plain, old, new, mixed)
     if fails:
         seen = set()
         for key, what in fails:
